@@ -1,7 +1,7 @@
 (* C11 - OrderedMap and Set: insertion-ordered model, exact diffs, no deadlock. Statements only.
    els s (= s_toslice s) is the duplicate-free list of elements in first-insertion order, the abstraction of a state. *)
 From Coq Require Import NArith ZArith List Bool.
-From Verif.C11_Set Require Import Model Refine SetBasics ArithCodec SetProofs Corr History Locks Skeletons.
+From Verif.C11_Set Require Import Model Refine SetBasics ArithCodec SetProofs Corr Iter History Locks Skeletons.
 Import ListNotations.
 Open Scope N_scope.
 
@@ -201,6 +201,72 @@ Example C11_nonvacuous_codec :
   s_toslice (fst (s_decode om_empty (s_encode (s_new [4294967295; 256; 0])))) = [4294967295; 256; 0].
 Proof. vm_compute. reflexivity. Qed.
 
+(* ---- iteration whose consumer mutates the map / set (re-entrant ForEach, ForEachReverse, Set.ForEach/Range/Filter; also a
+   writer on another goroutine that lands between two iteration steps) ----
+   Model.foreach_re is the pointer walk of the code: the consumer runs, then current.next (prev) is read; removed
+   elements keep their pointers. sc is any script: the i-th consumer call performs the i-th list of Set/Delete/Clear
+   and returns the i-th flag. untouched sc k: no call of the script deletes k or clears; livekey o sc k: k is in the map
+   when the iteration starts and untouched, i.e. k is live during the whole iteration.
+   In every reachable state, for every script: the visits of live-throughout keys are exactly these keys in
+   first-insertion order (reverse for ForEachReverse); when the consumer stops the iteration, a prefix of them. *)
+Theorem C11_iter_reentrant_forward : forall init h sc, let o := run_ops (s_new init) h in
+  exists rest,
+    filter (untouched sc) (map fst (om_list o)) =
+      filter (livekey o sc) (map fst (snd (fst (om_foreach_re o sc)))) ++ rest
+    /\ (snd (om_foreach_re o sc) = true -> rest = []).
+Proof. intros init h sc. apply foreach_re_live. apply reachable_sinv. Qed.
+
+Theorem C11_iter_reentrant_reverse : forall init h sc, let o := run_ops (s_new init) h in
+  exists rest,
+    filter (untouched sc) (rev (map fst (om_list o))) =
+      filter (livekey o sc) (map fst (snd (fst (om_foreachrev_re o sc)))) ++ rest
+    /\ (snd (om_foreachrev_re o sc) = true -> rest = []).
+Proof. intros init h sc. apply foreachrev_re_live. apply reachable_sinv. Qed.
+
+(* ... and each of them is visited exactly once (iteration not stopped by the consumer) *)
+Theorem C11_iter_reentrant_once : forall init h sc k, let o := run_ops (s_new init) h in
+  livekey o sc k = true ->
+  (snd (om_foreach_re o sc) = true -> count_occ N.eq_dec (map fst (snd (fst (om_foreach_re o sc)))) k = 1%nat) /\
+  (snd (om_foreachrev_re o sc) = true -> count_occ N.eq_dec (map fst (snd (fst (om_foreachrev_re o sc)))) k = 1%nat).
+Proof.
+  intros init h sc k o L. split; intros B.
+  - apply foreach_re_once; auto. apply reachable_sinv.
+  - apply foreachrev_re_once; auto. apply reachable_sinv.
+Qed.
+
+(* the invariant behind it: in every reachable state addresses grow along next (fall along prev) for every element
+   of the store, live or removed, so the walk from a removed element is well defined and ends *)
+Theorem C11_reachable_sinv : forall init h, SInv (run_ops (s_new init) h).
+Proof. exact reachable_sinv. Qed.
+
+(* "a key removed before the iteration reaches it is not visited" does NOT hold for all consumers (known finding
+   foreach-visits-removed-element-after-current-removed): the consumer at key 2 deletes 2 and then 3; 3 is still shown *)
+Definition C11_iter_removed_not_visited_full_statement : Prop :=
+  forall init h sc k, let o := run_ops (s_new init) h in
+  forall i ops b, nth_error sc i = Some (ops, b) -> In (MDel k) ops ->
+  ~ In k (skipn (S i) (map fst (snd (fst (om_foreach_re o sc))))).
+
+Theorem C11_refuted_iter_removed_visited : ~ C11_iter_removed_not_visited_full_statement.
+Proof.
+  intros H. specialize (H [1; 2; 3; 4; 5] [] [([], true); ([MDel 2; MDel 3], true)] 3 1%nat [MDel 2; MDel 3] true eq_refl).
+  apply H; vm_compute; auto.
+Qed.
+
+(* regression for the class "the consumer deletes the element the iteration stands on" (forward and reverse):
+   nothing that stays in the map is lost *)
+Example C11_regression_delete_current :
+  let o := s_new [1; 2; 3; 4; 5] in
+  map fst (snd (fst (om_foreach_re o [([], true); ([MDel 2], true)]))) = [1; 2; 3; 4; 5] /\
+  map fst (om_list (fst (fst (om_foreach_re o [([], true); ([MDel 2], true)])))) = [1; 3; 4; 5] /\
+  map fst (snd (fst (om_foreachrev_re o [([], true); ([MDel 4], true)]))) = [5; 4; 3; 2; 1] /\
+  map fst (snd (fst (om_foreach_re o [([MDel 1], true); ([MDel 2; MSet 9 0], true); ([MDel 3; MDel 5], true)]))) = [1; 2; 3; 4; 9].
+Proof. vm_compute. auto. Qed.
+
+Example C11_nonvacuous_iter :
+  let o := s_new [1; 2; 3; 4; 5] in let sc := [([MDel 1], true); ([MDel 2; MSet 9 0], true); ([MDel 3; MDel 5], true)] in
+  filter (livekey o sc) [1; 2; 3; 4; 5; 9] = [4] /\ SInv o.
+Proof. split. vm_compute; auto. apply (reachable_sinv [1; 2; 3; 4; 5] []). Qed.
+
 Print Assumptions C11_reachable_inv.
 Print Assumptions C11_refines_set.
 Print Assumptions C11_refines_delete.
@@ -224,3 +290,8 @@ Print Assumptions C11_lock_hierarchy.
 Print Assumptions C11_no_deadlock.
 Print Assumptions C11_refuted_deleteall_pinned.
 Print Assumptions C11_atomic_sections.
+Print Assumptions C11_iter_reentrant_forward.
+Print Assumptions C11_iter_reentrant_reverse.
+Print Assumptions C11_iter_reentrant_once.
+Print Assumptions C11_reachable_sinv.
+Print Assumptions C11_refuted_iter_removed_visited.
